@@ -246,8 +246,12 @@ def run_history(res, rng, model):
     pars = M.rate_param_names(model)
     ops_done = []
     history = []
+    early = rng.random() < 0.3
     try:
-        lf = M.build_lf(prob)
+        lf = M.build_lf(dict(prob, early_queries=True) if early else prob)
+        if early:
+            res.count("function-queried-before-alignment")
+            history.append(["queried-before-alignment"])
     except Exception as e:  # noqa: BLE001
         res.evals += 1
         res.witness(exc_mechanism("C07/history/build", e), model=model)
@@ -256,9 +260,63 @@ def run_history(res, rng, model):
     nsteps = rng.randint(3, 25 if M.kind_of(model) == "nuc" else 8)
     known_bounds = {}
     tight_ever = set()
+    # a second, unrelated likelihood function living in the same process: work on it (also while a batch of the first
+    # is open, and the other way round) must not leak into the first
+    other = None
+    other_edges = []
+    failed_before = False
+
+    def use_other(op_rng):
+        nonlocal other
+        if other is None:
+            oprob = base_problem(random.Random(op_rng.randrange(2**32)), "HKY85")
+            other = M.build_lf(oprob)
+            other_edges.extend(e["name"] for e in M.edges(oprob["tree"]))
+        other.set_param_rule("kappa", init=round(op_rng.uniform(0.3, 6.0), 3))
+        if op_rng.random() < 0.5:
+            other.set_param_rule("length", edge=op_rng.choice(other_edges), init=round(op_rng.uniform(0.01, 1.0), 3))
+        float(other.lnL)
+
+    def bad_alignment(op_rng):
+        """an alignment the function must refuse: an in-frame stop codon for codon models (refused when the leaf
+        likelihoods are next computed), a non-nucleotide character otherwise (refused at once)"""
+        d = {k: v for k, v in prob["aln"].items()}
+        nm = op_rng.choice(sorted(d))
+        if M.kind_of(model) == "codon":
+            table = M.codon_table(prob.get("gc", 1))
+            stop = sorted(c for c, a in table.items() if a == "*")[0]
+            k = 3 * op_rng.randrange(len(d[nm]) // 3)
+            d[nm] = d[nm][:k] + stop + d[nm][k + 3 :]
+            return make_aligned_seqs(d, moltype="dna")
+        k = op_rng.randrange(len(d[nm]))
+        d[nm] = d[nm][:k] + "E" + d[nm][k + 1 :]
+        return make_aligned_seqs(d, moltype="text")
+
+    def failing_call(op_rng):
+        """a call that is refused with an exception; returns its label (None if it was accepted)"""
+        par = op_rng.choice(pars)
+        calls = {
+            "unknown-parameter": lambda: lf.set_param_rule("no_such_par", init=1.0),
+            "unknown-edge": lambda: lf.set_param_rule(par, edge="no_such_edge", init=2.0),
+            "unknown-psub-edge": lambda: lf.get_psub_for_edge("no_such_edge"),
+            "unknown-locus": lambda: lf.reconstruct_ancestral_seqs(locus="no_such_locus"),
+            "unknown-tip": lambda: lf.set_param_rule(par, tip_names=[tipn[0], "no_such_tip"], clade=True, init=2.0),
+            "unknown-bin": lambda: lf.set_param_rule(par, bin="bin99", init=2.0),
+            "mprobs-not-summing-to-one": lambda: lf.set_motif_probs({k: 0.5 for k in prob["mprobs"]}) if prob.get("mprobs") and "positions" not in prob["mprobs"] else (_ for _ in ()).throw(ValueError("n/a")),
+            "alignment-with-other-names": lambda: lf.set_alignment(make_aligned_seqs({(k if i else "no_such_name"): v for i, (k, v) in enumerate(sorted(prob["aln"].items()))}, moltype="dna")),
+        }
+        label = op_rng.choice(sorted(calls))
+        try:
+            calls[label]()
+        except Exception:  # noqa: BLE001 - the refusal is the expected outcome
+            return label
+        return None
 
     def one_op(op_rng):
-        kind = op_rng.choice(["init", "init", "const", "indep", "edges", "clade", "bounds", "tight", "mprobs", "aln", "length", "unconst"])
+        kind = op_rng.choice(["init", "init", "const", "indep", "edges", "clade", "bounds", "tight", "mprobs", "aln", "length", "unconst", "other"])
+        if kind == "other":
+            use_other(op_rng)
+            return ("other",)
         par = op_rng.choice(pars)
         v = round(math.exp(op_rng.uniform(math.log(0.2), math.log(5))), 4)
         if kind == "init":
@@ -315,9 +373,59 @@ def run_history(res, rng, model):
         return None
 
     for step in range(nsteps):
-        postponed = rng.random() < 0.25
+        u_ = rng.random()
+        postponed = u_ < 0.25
         try:
-            if postponed:
+            if 0.25 <= u_ < 0.33:
+                # a refused call between steps: the function must be exactly what it was
+                before_ = float(lf.lnL)
+                label = failing_call(rng)
+                if label is None:
+                    continue
+                after_ = float(lf.lnL)
+                res.evals += 1
+                res.count("refused-call:" + label)
+                if not close(before_, after_, 1e-12):
+                    res.witness(f"C07/history/refused-call-changed-lnL/{label}", model=model, before=before_, after=after_, history=history, base=prob_brief(prob))
+                    break
+                history.append(["refused-call", label])
+                ops_done.append("refused-call")
+            elif 0.33 <= u_ < 0.43:
+                # a batch that ends in a refusal (bad alignment), then the repair: the settings accepted inside the
+                # batch are in force and the function must be what a new one with those settings is
+                failed_before = True
+                done = []
+                refused = False
+                try:
+                    with lf.updates_postponed():
+                        done = [one_op(rng) for _ in range(rng.randint(1, 3))]
+                        if rng.random() < 0.3:
+                            use_other(rng)
+                        if rng.random() < 0.5:
+                            lf.set_alignment(bad_alignment(rng))  # refused when the batch is applied
+                        else:  # refused at once, inside the batch
+                            lf.set_alignment(make_aligned_seqs({(k if i else "no_such_name"): v for i, (k, v) in enumerate(sorted(prob["aln"].items()))}, moltype="dna"))
+                except (ValueError, AssertionError):
+                    refused = True
+                if not refused:
+                    res.count("bad-alignment-accepted")
+                lf.set_alignment(make_aligned_seqs(prob["aln"], moltype="dna"))
+                done = [d for d in done if d]
+                history.append(["failed-batch", done])
+                ops_done.append("failed-batch")
+                res.count("failed-batch-then-repair")
+            elif 0.43 <= u_ < 0.5:
+                # batches of the two functions open at the same time
+                use_other(rng)
+                with lf.updates_postponed(), other.updates_postponed():
+                    done = [one_op(rng) for _ in range(rng.randint(1, 3))]
+                    other.set_param_rule("kappa", init=round(rng.uniform(0.3, 6.0), 3))
+                float(other.lnL)
+                done = [d for d in done if d]
+                history.append(["postponed", done])
+                ops_done.append("postponed")
+                res.count("overlapping-batches-of-two-functions")
+            elif postponed:
                 with lf.updates_postponed():
                     done = [one_op(rng) for _ in range(rng.randint(2, 4))]
                 done = [d for d in done if d]
@@ -337,7 +445,7 @@ def run_history(res, rng, model):
         # bounds the harness knows for a parameter (same on every edge): set by 'bounds'/'tight', forgotten on any
         # scope-changing rule; once a tight bound was applied and then forgotten, values of that parameter are no
         # longer predicted (they may legitimately be clipped)
-        for d_ in (history[-1][1] if history[-1][0] == "postponed" else [history[-1]]):
+        for d_ in (history[-1][1] if history[-1][0] in ("postponed", "failed-batch") else [history[-1]]):
             if d_[0] == "bounds":
                 known_bounds[d_[1]] = (0.01, 50.0)
             elif d_[0] == "tight":
@@ -346,7 +454,7 @@ def run_history(res, rng, model):
             elif d_[0] in ("indep", "edges", "clade", "unconst", "const") and len(d_) > 1:
                 known_bounds.pop(d_[1], None)
         binding = {}  # (par, edge) -> (value, op kind); later rules override earlier ones, other rule kinds unbind
-        for d_ in (history[-1][1] if history[-1][0] == "postponed" else [history[-1]]):
+        for d_ in (history[-1][1] if history[-1][0] in ("postponed", "failed-batch") else [history[-1]]):
             if d_[0] == "length":
                 binding[("length", d_[1])] = (d_[2], "length")
             elif d_[0] == "edges":
@@ -372,7 +480,7 @@ def run_history(res, rng, model):
             res.evals += 1
             res.count("reported-value-checked")
             if abs(got_ - v_) > 1e-12 * max(1.0, abs(v_)):
-                res.witness(f"C07/history/rule-value-not-applied/{kind_}", model=model, par=par_, edge=e_, requested=v_, reported=got_, history=history, base=prob_brief(prob))
+                res.witness(f"C07/history/rule-value-not-applied/{kind_}" + ("/after-failed-batch" if failed_before else ""), model=model, par=par_, edge=e_, requested=v_, reported=got_, history=history, base=prob_brief(prob))
                 break
         # observe + decide
         try:
@@ -399,7 +507,7 @@ def run_history(res, rng, model):
             res.evals += 1
             res.count("fresh-from-reported-values")
         if not close(live, fresh):
-            res.witness(f"C07/history/live-lnL-differs-from-fresh-function/after-{last}", model=model, live=live, fresh=fresh, history=history, base=prob_brief(prob))
+            res.witness(f"C07/history/live-lnL-differs-from-fresh-function/after-{last}" + ("/after-failed-batch" if failed_before and last != "failed-batch" else ""), model=model, live=live, fresh=fresh, history=history, base=prob_brief(prob))
             break
         # exported rules reproduce lnL and nfp
         try:
